@@ -127,8 +127,9 @@ func (m *verifRPEpochs) GetEpochStart(ctx sdk.Context) uint64   { return 100 }
 
 type verifRPSpecs struct {
 	types.SpecKeeper
-	enabled bool
-	found   bool
+	enabled       bool
+	found         bool
+	providersType spectypes.Spec_ProvidersTypes
 }
 
 func (m *verifRPSpecs) GetSpec(ctx sdk.Context, index string) (spectypes.Spec, bool) {
